@@ -7,7 +7,8 @@ from ..core import hx, lst, WILD
 from ..ref import P, L, to32, le
 
 REQUIRED = ['S>=l', 'S+l', 'smallA:accept', 'smallA:reject', 'smallR', 'mixedA', 'cofactored-only', 'noncanon-R', 'noncanon-A',
-            'badkey', 'honest', 'prehash', 'legacy:S-range', 'validationvectors', 'R-undecodable', 'malleable-derived', 'sk-wrapper']
+            'badkey', 'honest', 'prehash', 'legacy:S-range', 'validationvectors', 'R-undecodable', 'malleable-derived', 'sk-wrapper',
+            'key-ctor:from_bytes', 'key-ctor:try_from-slice', 'key-ctor:bincode', 'key-ctor:json', 'is_weak:small-order', 'is_weak:not', 'key-bytes-kept']
 
 
 def okerr(x):
@@ -37,17 +38,24 @@ def torsion_encodings():
     return out
 
 
+KEY_CTORS = {'': 'key-ctor:from_bytes', 't': 'key-ctor:try_from-slice', 'n': 'key-ctor:bincode', 'j': 'key-ctor:json'}
+
+
 def add_verify(ctx, A, msg, sig, cls, ph_ctx=None):
-    """emit a verify request with expectation from the predicate (both legacy and non-legacy builds)"""
+    """emit a verify request with expectation from the predicate (both legacy and non-legacy builds); the key object is
+    built through one of the public constructors (array, slice, serde), which must all keep the supplied bytes"""
+    how = ctx.rng.choice(['', '', '', 't', 't', 'n', 'j'])
+    Ahex = how + A.hex()
+    cls = cls + [KEY_CTORS[how]]
     if ref.ed_decompress(A) is None:
-        ctx.add('sig.verify', A.hex(), hx(msg), sig.hex(), expect=['badkey'], cls=cls + ['badkey'])
+        ctx.add('sig.verify', Ahex, hx(msg), sig.hex(), expect=['badkey'], cls=cls + ['badkey'])
         return
     if ph_ctx is None:
         e = ref.ed_verify_predicate(A, msg, sig)
         es = ref.ed_verify_predicate(A, msg, sig, strict=True)
         el = ref.ed_verify_predicate(A, msg, sig, legacy=True)
         els = ref.ed_verify_predicate(A, msg, sig, strict=True, legacy=True)
-        op, args = 'sig.verify', (A.hex(), hx(msg), sig.hex())
+        op, args = 'sig.verify', (Ahex, hx(msg), sig.hex())
     else:
         ph = vals.sha512(msg)
         c = ph_ctx
@@ -55,7 +63,7 @@ def add_verify(ctx, A, msg, sig, cls, ph_ctx=None):
         es = ref.ed_verify_predicate(A, None, sig, strict=True, ph=ph, ctx=c)
         el = ref.ed_verify_predicate(A, None, sig, ph=ph, ctx=c, legacy=True)
         els = ref.ed_verify_predicate(A, None, sig, strict=True, ph=ph, ctx=c, legacy=True)
-        op, args = 'sig.verifyph', (A.hex(), hx(msg), hx(c), sig.hex())
+        op, args = 'sig.verifyph', (Ahex, hx(msg), hx(c), sig.hex())
         cls = cls + ['prehash']
     cls = cls + (['accepted'] if e else ['rejected'])
     if (e, es) == (el, els):
@@ -199,6 +207,28 @@ def sk_wrappers(ctx, n):
                 only=nonlegacy)
 
 
+def weak_keys(ctx, n):
+    """VerifyingKey::is_weak (what verify_strict refuses) and the stored bytes, for every accepted encoding of every
+    small-order point, for mixed-order and for honest keys"""
+    rng = ctx.rng
+    for Ab, Am, Anc in torsion_encodings():
+        ctx.add('sig.vk_frombytes', Ab.hex(), expect=['ok', Ab.hex(), 'T'], cls=['is_weak:small-order'] + (['noncanon-A'] if Anc else []))
+        ctx.add('sig.vk_tryfrom', Ab.hex(), expect=['ok', Ab.hex()], cls=['key-bytes-kept'] + (['noncanon-A'] if Anc else []))
+    for _ in range(n):
+        A = vals.Pt(rng.randrange(1, L), rng.randrange(8)).encoding()
+        ctx.add('sig.vk_frombytes', A.hex(), expect=['ok', A.hex(), 'F'], cls='is_weak:not')
+        ctx.add('sig.vk_tryfrom', A.hex(), expect=['ok', A.hex()], cls='key-bytes-kept')
+        # non-canonical y (y + p < 2^255 needs y < 19): only the small y values have a second encoding
+        y = rng.randrange(19)
+        for sgn in (0, 1):
+            enc = to32((y + P) | (sgn << 255))
+            m = ref.ed_decompress(enc)
+            if m is not None:
+                weak = ref.aff_mul(8, m) == ref.IDENT
+                ctx.add('sig.vk_frombytes', enc.hex(), expect=['ok', enc.hex(), 'T' if weak else 'F'], cls=['noncanon-A', 'is_weak:' + ('small-order' if weak else 'not')])
+                ctx.add('sig.vk_tryfrom', enc.hex(), expect=['ok', enc.hex()], cls=['key-bytes-kept', 'noncanon-A'])
+
+
 def validation_vectors(ctx, limit):
     from .. import build
     p = os.path.join(build.REPO, 'ed25519-dalek', 'VALIDATIONVECTORS')
@@ -217,6 +247,7 @@ def make(seed, size):
     mixed_order(ctx, max(4, size // 4))
     validation_vectors(ctx, max(10, size // 2))
     sk_wrappers(ctx, max(3, size // 8))
+    weak_keys(ctx, max(3, size // 8))
     return ctx
 
 
@@ -227,7 +258,7 @@ def task(prop, seed, size, cfgbins):
 
 def run(prop, tier, seed, t0):
     from .. import plan
-    cfgs = ['simd', 'simd-legacy', 'serial32'] if tier == 'quick' else plan.ALL_CFGS + ['simd-legacy', 'serial32-legacy', 'simd-notables']
+    cfgs = ['simd', 'simd-legacy', 'serial32', 'fiat64'] if tier == 'quick' else plan.ALL_CFGS + ['simd-legacy', 'serial32-legacy', 'simd-notables']
     bins, notes, failed = plan.bins_for(cfgs, ('rel', 'chk') if tier == 'thorough' else ('rel',))
     if failed:
         return plan.fail_build(prop, failed)
@@ -239,7 +270,8 @@ def run(prop, tier, seed, t0):
                        rule='constructed adversarial (key, message, signature) triples: torsion keys/R in every accepted encoding, '
                             'mixed-order keys, cofactored-only solutions, S in [l, 2^256), non-canonical R, the VALIDATIONVECTORS '
                             'file and honest signatures with S variants, through verify / verify_strict / raw_verify and the '
-                            'prehashed variants, on non-legacy and legacy builds; verdict from the documented predicate evaluated '
+                            'prehashed variants, on non-legacy and legacy builds, the key object built by from_bytes / TryFrom<&[u8]> / bincode / JSON; '
+                            'is_weak and the stored key bytes for every encoding of every small-order point; verdict from the documented predicate evaluated '
                             'in Python; distinct = distinct (op,args)',
                        required_classes=REQUIRED,
                        assumptions=['oracle = dalek-documented predicate: S canonical (legacy: top 3 bits clear), A decodes, '
